@@ -254,10 +254,11 @@ def gen_cond(rng, names, opener=True):
     if opener and r < 0.3:
         return [rng.choice(['ifdef', 'ifndef']), rng.choice(pool)]
     if r < 0.45:
-        return ['bare', rng.choice(pool + ['0', '1', '2-2', '3*0+1', '1-3', '-1', '0-2+2'])]
+        # (shift operators in a condition are part of its expression, not comparison operators)
+        return ['bare', rng.choice(pool + ['0', '1', '2-2', '3*0+1', '1-3', '-1', '0-2+2', '16>>4', '16 >> 5', '1<<3', '(6>>1)&1', '1 << 0'])]
     lhs = rng.choice(pool + ['5', '10', '9'])
     op = rng.choice(list(OPS))
-    rhs = rng.choice(pool + ['0', '1', '5', '9', '10', '100', '$0A', '%1010', '2+3', 'abc', '"abc"', "'abc'"])
+    rhs = rng.choice(pool + ['0', '1', '5', '9', '10', '100', '$0A', '%1010', '2+3', 'abc', '"abc"', "'abc'", '20>>1', '1<<3'])
     return ['cmp', lhs, op, rhs]
 
 
